@@ -158,3 +158,9 @@ func HarnessC05Debug() {
 	zzverif.Assert(v.A == 1 && v.B == 2, "view must be unchanged")
 	zzverif.Reached("dbg-end")
 }
+
+// HarnessC05Thorough: 2+2 reports from two sources with a concurrent reader (2 reads).
+func HarnessC05Thorough() { c05scenario(2, 2, 2) }
+
+// HarnessC05Three: 3+1 reports, one read.
+func HarnessC05Three() { c05scenario(3, 1, 1) }
